@@ -104,6 +104,64 @@ theorem C02_balance_exact (env : Env) (b : Batch) (best : UInt32) (d : Diff)
   exact ⟨a, hfa, fun hi => by rw [hbal, w64_eq_self hi]⟩
 
 
+/-! ## no state between proposals -/
+
+/-- the verdict on a proposal does not depend on the pending batch left by earlier proposals -/
+theorem C02_verdict_independent_of_pending (env : Env) (rules : Rules) (b : Batch) (best : UInt32)
+    (p p' : Option String) :
+    (orderMatchValidate env rules b best p).1 = (orderMatchValidate env rules b best p').1 := by
+  unfold orderMatchValidate
+  cases verify env rules b best with
+  | error e => rfl
+  | ok st => cases nodeFilter env b.matched <;> rfl
+
+/-- **Statelessness.** On one long-lived manager, whatever proposals came before (same or other batch IDs, accepted
+or rejected, any database states), the verdict on a proposal is the verdict it gets in isolation against the
+environment of its own time. -/
+theorem C02_verdict_history_independent (rules : Rules) :
+    ∀ (seq : List (Env × Batch × UInt32)) (p : Option String),
+      (validateSeq rules seq p).1 = seq.map fun x => (orderMatchValidate x.1 rules x.2.1 x.2.2 none).1 := by
+  intro seq
+  induction seq with
+  | nil => intro p; rfl
+  | cons x rest ih =>
+    intro p
+    obtain ⟨env, b, best⟩ := x
+    simp only [validateSeq, List.map_cons]
+    rw [ih, C02_verdict_independent_of_pending env rules b best p none]
+
+/-- hence every accepted proposal of any sequence debits exactly, w.r.t. the accounts as stored at that time -/
+theorem C02_sequence_debits_exact (seq : List (Env × Batch × UInt32)) (p : Option String) :
+    ∀ x ∈ seq.zip (validateSeq Rules.fixed seq p).1, ∀ st, x.2 = .ok st → NoOverflow x.1.1 x.1.2.1 →
+      ∀ d ∈ x.1.2.1.diffs, ChargedExactly x.1.1 x.1.2.1 x.1.2.2 d := by
+  rw [C02_verdict_history_independent]
+  intro x hx st hst hg
+  obtain ⟨⟨env, b, best⟩, r⟩ := x
+  have hm := List.of_mem_zip hx
+  obtain ⟨y, _, hy⟩ := List.mem_map.mp hm.2
+  -- the zip of a list with its own image pairs every element with its image
+  have : r = (orderMatchValidate env Rules.fixed b best none).1 := by
+    have hz : ∀ (l : List (Env × Batch × UInt32)) (f : Env × Batch × UInt32 → Except Err Tallies)
+        (a : Env × Batch × UInt32) (c : Except Err Tallies), (a, c) ∈ l.zip (l.map f) → c = f a := by
+      intro l f
+      induction l with
+      | nil => intro a c h; simp at h
+      | cons z zs ih =>
+        intro a c h
+        simp only [List.map_cons, List.zip_cons_cons, List.mem_cons, Prod.mk.injEq] at h
+        rcases h with ⟨rfl, rfl⟩ | h
+        · rfl
+        · exact ih a c h
+    exact hz seq _ (env, b, best) r hx
+  simp only at hst hg ⊢
+  rw [this] at hst
+  exact C02_orderMatchValidate_debits_exact env b best none st hg hst
+
+/-- non-vacuity / illustration: the hostile over-long-expiry proposal, then the honest one twice for the same batch
+ID, on one manager: rejected, accepted, accepted – the rejected first attempt leaves nothing behind -/
+example : ((validateSeq Rules.fixed [(exEnv, exBatchExp, 101), (exEnv, exBatch, 101), (exEnv, exBatch, 101)] none).1.map isOk)
+    = [false, true, true] := by decide
+
 /-! ## non-vacuity -/
 
 /-- the two-order proposal of `BatchExamples` meets the hypotheses (guard + acceptance by the repaired code) … -/
